@@ -85,11 +85,68 @@ def _wrap_chunk(chunk):
     return len(chunk), nt, fails
 
 
+def _history(case):
+    """one Resolver, several wraps naming the SAME cached archive file, each with its own recorded hash (right or
+    wrong): every wrap is accepted iff its own recorded hash is the hash of the file — whatever was verified before"""
+    from mesonbuild.wrap import wrap
+    oks, where = case
+    problems = []
+    with tempfile.TemporaryDirectory() as d:
+        sp = os.path.join(d, 'subprojects')
+        tgt = os.path.join(sp, where)
+        os.makedirs(tgt)
+        src = os.path.join(d, 'src', 'pkg')
+        os.makedirs(src)
+        open(os.path.join(src, 'meson.build'), 'w').write("project('pkg')\n")
+        tar = os.path.join(tgt, 'v1.0.tar.gz')
+        with tarfile.open(tar, 'w:gz') as t:
+            t.add(src, arcname='.')
+        h = hashlib.sha256(open(tar, 'rb').read()).hexdigest()
+        for i, ok in enumerate(oks):
+            lines = ['[wrap-file]', f'directory = w{i}-1.0', 'lead_directory_missing = true', 'source_filename = v1.0.tar.gz', f'source_hash = {h if ok else "0" * 64}']
+            if where == 'packagecache':
+                lines.insert(2, 'source_url = http://invalid.invalid/v1.0.tar.gz')
+            open(os.path.join(sp, f'w{i}.wrap'), 'w').write('\n'.join(lines) + '\n')
+        r = wrap.Resolver(d, 'subprojects', wrap_mode=wrap.WrapMode.nodownload)
+        for i, ok in enumerate(oks):
+            try:
+                r.resolve(f'w{i}')
+                got = True
+            except Exception:
+                got = False
+            unpacked = os.path.isfile(os.path.join(sp, f'w{i}-1.0', 'meson.build'))
+            if got != ok:
+                problems.append(f'wrap {i} of the history {"resolved" if got else "was refused"} although its recorded hash is {"right" if ok else "wrong"}')
+            if not ok and unpacked:
+                problems.append(f'wrap {i}: an archive whose hash differs from the recorded one was unpacked')
+    return problems
+
+
+def _history_chunk(chunk):
+    fails, nt = [], 0
+    for case in chunk:
+        nt += len(set(case[0])) > 1
+        try:
+            problems = _history(case)
+        except Exception as ex:
+            problems = [f'harness: {type(ex).__name__}: {ex}']
+        for p in problems:
+            fails.append({'case': {'hash_ok_per_wrap': list(case[0]), 'location': case[1]}, 'stage': 'history', 'detail': p})
+    return len(chunk), nt, fails
+
+
 def run(REG, tier, seed, jobs):
     cases = [(s, p, ph, w) for s in (True, False) for p in ('none', 'good', 'garbage') for ph in (True, False) for w in ('packagefiles', 'cache') if not (p == 'none' and not ph)]
     ev, nt, fails = pmap(_wrap_chunk, chunked(iter(cases), 2), jobs)
-    return {'parts': [{'name': 'C10/bounded/wrap-hash-and-cleanup', 'function': 'Resolver.resolve (nodownload, local archives)', 'bound': f'{len(cases)} cases: source hash right/wrong x patch none/good/not-an-archive x patch hash right/wrong x archive in packagefiles/packagecache; each followed by a second run',
+    import itertools
+    k = 3 if tier == 'quick' else 4
+    hist = [(oks, w) for j in range(1, k + 1) for oks in itertools.product((True, False), repeat=j) for w in ('packagefiles', 'packagecache')]
+    ev2, nt2, fails2 = pmap(_history_chunk, chunked(iter(hist), 2), jobs)
+    hpart = {'name': 'C10/bounded/one-resolver-many-wraps', 'function': 'Resolver.resolve x k on one Resolver (shared archive file name)', 'bound': f'{len(hist)} histories: <= {k} wraps naming the same archive, each recorded hash right/wrong, archive in packagefiles/packagecache',
+             'evaluations': ev2, 'distinct_nontrivial': nt2, 'rule': 'non-trivial: the history mixes right and wrong recorded hashes', 'exhaustive': True, 'failures': fails2}
+    return {'parts': [hpart, {'name': 'C10/bounded/wrap-hash-and-cleanup', 'function': 'Resolver.resolve (nodownload, local archives)', 'bound': f'{len(cases)} cases: source hash right/wrong x patch none/good/not-an-archive x patch hash right/wrong x archive in packagefiles/packagecache; each followed by a second run',
                        'evaluations': ev, 'distinct_nontrivial': nt, 'rule': 'every case', 'exhaustive': True, 'failures': fails}]}
 
 
-CHECKS = {'C10/bounded/wrap-hash-and-cleanup': (_wrap_chunk, lambda c: (c['source_hash_ok'], c['patch'], c['patch_hash_ok'], c['location']))}
+CHECKS = {'C10/bounded/one-resolver-many-wraps': (_history_chunk, lambda c: (tuple(c['hash_ok_per_wrap']), c['location'])),
+          'C10/bounded/wrap-hash-and-cleanup': (_wrap_chunk, lambda c: (c['source_hash_ok'], c['patch'], c['patch_hash_ok'], c['location']))}
